@@ -80,7 +80,39 @@ fn determinism_case(n: usize, format: Format, game: truth::Game, mode: &str, map
 
 /// sources with >= 2 competing entries in hash-ordered bookkeeping
 fn competing_source(rng: &mut Rng) -> gensrc::GenSource {
-    match rng.below(6) {
+    match rng.below(8) {
+        7 => {
+            // MSG: several scripts that the script table does not mention (one warning each)
+            let game = *rng.pick(&[truth::Game::Th06, truth::Game::Th08, truth::Game::Th10, truth::Game::Th12]);
+            let n = 3 + rng.below(5);
+            let mut text = String::from("meta { table: {0: {script: \"used0\"}} }\nscript used0 { }\n");
+            let mut names: Vec<String> = (0..n).map(|i| format!("{}{i}", rng.pick(&["extra", "spare", "old", "tmp"]))).collect();
+            names.sort(); names.dedup();
+            for nm in &names { text.push_str(&format!("script {nm} {{ }}\n")); }
+            gensrc::GenSource { format: Format::Msg, game, text, maps: vec![] }
+        },
+        6 => {
+            // ANM: blocks that declare several locals of one type (their registers are released together at the end
+            // of the block), then further locals / temporaries that take the released registers
+            let game = *rng.pick(&[truth::Game::Th10, truth::Game::Th12, truth::Game::Th16]);
+            let mut body = String::new();
+            let mut v = 0;
+            for _ in 0..1 + rng.below(3) {
+                let k = 2 + rng.below(3);
+                let float = rng.chance(1, 3);
+                let (kw, reg, lit) = if float { ("float", "%REG[10004]", ".0") } else { ("int", "$REG[10000]", "") };
+                let head = match rng.below(3) { 0 => "if ($REG[10001] == 0)".to_string(), 1 => "times(2)".to_string(), _ => "loop".to_string() };
+                body.push_str(&format!("    {head} {{\n"));
+                let first = v;
+                for _ in 0..k { body.push_str(&format!("        {kw} v{v} = {}{lit};\n", 1 + rng.below(9))); v += 1; }
+                body.push_str(&format!("        {reg} = {};\n", (first..v).map(|i| format!("v{i}")).collect::<Vec<_>>().join(" + ")));
+                if head == "loop" { body.push_str("        break;\n"); }
+                body.push_str("    }\n");
+                body.push_str(&format!("    {kw} v{v} = {}{lit};\n    {reg} = v{v} * ({reg} + v{v});\n", 10 + rng.below(80))); v += 1;
+            }
+            let text = format!("entry {{ path: \"a.png\", has_data: false, img_width: 16, img_height: 16, img_format: 3, sprites: {{}} }}\nscript s0 {{\n{body}}}\n");
+            gensrc::GenSource { format: Format::Anm, game, text, maps: vec![] }
+        },
         5 => {
             // PCB ECL: the parameter list of a sub is inferred from its call sites on decompilation; call sites that
             // disagree (different argument registers set before the call), in equal numbers
@@ -158,17 +190,18 @@ impl Prop for C19 {
     fn id(&self) -> &'static str { "C19" }
     fn relation(&self) -> &'static str { "site table: every iteration over a hash container in /repo/src whose result can reach output is mapped to a permutation-invariance lemma of Props/C19.lean (tools/order_sites.py); dynamic: repeated fresh-process runs" }
     fn rule(&self) -> &'static str {
-        "commands (compile with --output-debug-info, decompile under random options) of every tool on generated sources plus sources built to have >= 2 competing entries in hash-ordered bookkeeping (registers under two names, exhausted scratch pool, many aliases/enums, PCB subs whose call sites disagree about the arguments); each run in N fresh processes (quick 6, thorough 24): exit status, stdout, stderr, output file and debug info must be byte-identical; non-trivial = the command printed at least one diagnostic or wrote a file; distinct by case text"
+        "commands (compile with --output-debug-info, decompile under random options) of every tool on generated sources plus sources built to have >= 2 competing entries in hash-ordered bookkeeping (registers under two names, exhausted scratch pool, many aliases/enums, PCB subs whose call sites disagree about the arguments, blocks releasing several locals at once followed by new locals, MSG files with several unused scripts); each run in N fresh processes (quick 6, thorough 24): exit status, stdout, stderr, output file and debug info must be byte-identical; non-trivial = the command printed at least one diagnostic or wrote a file; distinct by case text"
     }
     fn theorems(&self) -> &'static [&'static str] { &["TruthModel.C19.sorted_consumer_perm_invariant"] }
     fn timeout_secs(&self) -> u64 { 120 }
 
     fn gen(&self, tier: Tier, rng: &mut Rng) -> Vec<Case> {
-        let (count, n) = if tier == Tier::Quick { (120, 6) } else { (1500, 24) };
+        let (count, n) = if tier == Tier::Quick { (160, 6) } else { (1500, 24) };
         let mut out = vec![];
         for k in 0..count {
             let g = if k % 2 == 0 { competing_source(rng) } else { gensrc::gen_any(rng) };
-            let mode = if rng.chance(2, 3) && !g.text.contains("void target0() {}") { "compile" } else { "decompile" };
+            let mode = if g.text.contains("script used0 { }") || g.text.contains("int v0 =") || g.text.contains("float v0 =") { "compile" }
+                else if rng.chance(2, 3) && !g.text.contains("void target0() {}") { "compile" } else { "decompile" };
             out.push(Case::search(Sexp::app("runs", vec![Sexp::int(n), Sexp::atom(g.format.name()), Sexp::atom(format!("{}", g.game)), Sexp::atom(mode), Sexp::int(rng.below(32) as i64),
                 Sexp::list(g.maps.iter().map(|m| Sexp::str(m.clone())).collect()), Sexp::str(g.text)])).tag(format!("{}-{}", mode, g.format.name())));
         }
